@@ -3,6 +3,7 @@ package sgen
 import (
 	"fmt"
 	"strconv"
+	"strings"
 
 	"verifharness/core"
 )
@@ -110,6 +111,26 @@ func optI32(p *int32) string {
 	return strconv.Itoa(int(*p))
 }
 
+// padInt writes v in decimal, zero-padded for about a quarter of the (seed, key) pairs when seed != 0.
+func padInt(seed uint64, key string, v int) string {
+	s := strconv.Itoa(v)
+	if seed == 0 || v < 0 {
+		return s
+	}
+	h := core.HashString(strconv.FormatUint(seed, 16) + "|" + key + "|" + s)
+	if h%4 != 0 {
+		return s
+	}
+	return strings.Repeat("0", 1+int(h>>8)%3) + s
+}
+
+func optPadI32(seed uint64, key string, p *int32) string {
+	if p == nil {
+		return ""
+	}
+	return padInt(seed, key, int(*p))
+}
+
 func b01(b bool) string {
 	if b {
 		return "1"
@@ -150,7 +171,7 @@ func Tables(m *Model) *Archive {
 
 	rt := &Table{Name: "routes.txt", Header: []string{"route_id", "agency_id", "route_short_name", "route_long_name", "route_desc", "route_type", "route_url", "route_color", "route_text_color", "route_sort_order", "continuous_pickup", "continuous_drop_off"}}
 	for _, x := range m.Routes {
-		rt.Rows = append(rt.Rows, []string{x.ID, m.Agencies[x.Agency].ID, x.Short, x.Long, x.Desc, strconv.Itoa(x.Type), x.URL, x.Color, x.TextColor, optI32(x.SortOrder), strconv.Itoa(x.ContPickup), strconv.Itoa(x.ContDropOff)})
+		rt.Rows = append(rt.Rows, []string{x.ID, m.Agencies[x.Agency].ID, x.Short, x.Long, x.Desc, strconv.Itoa(x.Type), x.URL, x.Color, x.TextColor, optPadI32(m.IntPad, "sort"+x.ID, x.SortOrder), strconv.Itoa(x.ContPickup), strconv.Itoa(x.ContDropOff)})
 	}
 	a.Tables = append(a.Tables, rt)
 
@@ -167,7 +188,7 @@ func Tables(m *Model) *Archive {
 	if len(m.Transfers) > 0 || !m.OmitEmptyOptional {
 		tr := &Table{Name: "transfers.txt", Header: []string{"from_stop_id", "to_stop_id", "transfer_type", "min_transfer_time"}}
 		for _, x := range m.Transfers {
-			tr.Rows = append(tr.Rows, []string{m.Stops[x.From].ID, m.Stops[x.To].ID, strconv.Itoa(x.Type), optI32(x.MinTime)})
+			tr.Rows = append(tr.Rows, []string{m.Stops[x.From].ID, m.Stops[x.To].ID, strconv.Itoa(x.Type), optPadI32(m.IntPad, "mintime", x.MinTime)})
 		}
 		a.Tables = append(a.Tables, tr)
 	}
@@ -193,7 +214,7 @@ func Tables(m *Model) *Archive {
 	if len(m.ShapePts) > 0 || !m.OmitEmptyOptional {
 		s := &Table{Name: "shapes.txt", Header: []string{"shape_id", "shape_pt_lat", "shape_pt_lon", "shape_pt_sequence", "shape_dist_traveled"}}
 		for _, x := range m.ShapePts {
-			s.Rows = append(s.Rows, []string{x.Shape, FmtFloat(x.Lat), FmtFloat(x.Lon), strconv.Itoa(int(x.Seq)), optFloat(x.Dist)})
+			s.Rows = append(s.Rows, []string{x.Shape, FmtFloat(x.Lat), FmtFloat(x.Lon), padInt(m.IntPad, "shape"+x.Shape, int(x.Seq)), optFloat(x.Dist)})
 		}
 		a.Tables = append(a.Tables, s)
 	}
@@ -209,7 +230,7 @@ func Tables(m *Model) *Archive {
 	if len(m.Frequencies) > 0 || !m.OmitEmptyOptional {
 		f := &Table{Name: "frequencies.txt", Header: []string{"trip_id", "start_time", "end_time", "headway_secs", "exact_times"}}
 		for _, x := range m.Frequencies {
-			f.Rows = append(f.Rows, []string{m.Trips[x.Trip].ID, FmtTime(x.Start, x.StartFmt2), FmtTime(x.End, x.EndFmt2), strconv.Itoa(int(x.Headway)), strconv.Itoa(x.Exact)})
+			f.Rows = append(f.Rows, []string{m.Trips[x.Trip].ID, FmtTime(x.Start, x.StartFmt2), FmtTime(x.End, x.EndFmt2), padInt(m.IntPad, "headway", int(x.Headway)), strconv.Itoa(x.Exact)})
 		}
 		a.Tables = append(a.Tables, f)
 	}
@@ -222,7 +243,7 @@ func Tables(m *Model) *Archive {
 		if x.HasDep {
 			dep = FmtTime(x.Dep, x.DepFmt2)
 		}
-		stt.Rows = append(stt.Rows, []string{m.Trips[x.Trip].ID, arr, dep, m.Stops[x.Stop].ID, strconv.Itoa(x.Seq), x.Headsign,
+		stt.Rows = append(stt.Rows, []string{m.Trips[x.Trip].ID, arr, dep, m.Stops[x.Stop].ID, padInt(m.IntPad, "seq"+m.Trips[x.Trip].ID, x.Seq), x.Headsign,
 			strconv.Itoa(x.Pickup), strconv.Itoa(x.DropOff), strconv.Itoa(x.ContPickup), strconv.Itoa(x.ContDropOff), optFloat(x.Dist), strconv.Itoa(x.Timepoint)})
 	}
 	a.Tables = append(a.Tables, stt)
